@@ -4,22 +4,42 @@ import numpy as np
 
 
 def replay_cursor(obname, model):
-    from t2listing import t2listing
+    """The cursor contract on one shipped listing of each simulator family that has at least three result times
+    (the table readers differ per family: a navigation defect may show in one family only)."""
     repo = os.environ.get('PYTOUGH_REPO') or [p for p in __import__('sys').path if os.path.exists(os.path.join(p, 't2listing.py'))][0]
-    lst = None
-    for fn in sorted(glob.glob(os.path.join(repo, 'tests', 'listing', 'AUTOUGH2', '*', '*.listing'))) + \
-            sorted(glob.glob(os.path.join(repo, 'tests', 'listing', 'TOUGH2', '*', '*'))):
-        if fn.endswith(('.npy', '~')) or os.path.getsize(fn) > 3000000:
-            continue
-        cand = t2listing(fn)
-        if cand.num_fulltimes >= 3:
-            lst = cand
+    problems, tried = [], 0
+    for family in ('AUTOUGH2', 'TOUGH2', 'TOUGHplus', 'TOUGH2-MP', 'TOUGH3'):
+        for fn in sorted(glob.glob(os.path.join(repo, 'tests', 'listing', family, '*', '*'))):
+            if fn.endswith(('.npy', '~')) or os.path.isdir(fn) or os.path.getsize(fn) > 3000000:
+                continue
+            try:
+                ok, detail = _replay_one(fn)
+            except _TooShort:
+                continue
+            tried += 1
+            if not ok:
+                problems.append('%s: %s' % (os.path.relpath(fn, repo), detail))
             break
-    if lst is None:
+    if not tried:
         return True, 'no shipped listing with three result times found'
-    n = lst.num_fulltimes
+    return (not problems), ' | '.join(problems[:3])
+
+
+class _TooShort(Exception):
+    pass
+
+
+def _replay_one(fn):
+    from t2listing import t2listing
+    try:
+        lst = t2listing(fn)
+    except Exception:
+        raise _TooShort()
+    if lst.num_fulltimes < 3:
+        raise _TooShort()
     problems = []
     fresh = t2listing(fn)
+    n = lst.num_fulltimes
     def same(i):
         fresh.index = i
         return lst.index == fresh.index and lst.time == fresh.time and lst.step == fresh.step and \
